@@ -195,7 +195,8 @@ func genHist(seedRand func(stream ...uint64) *rand.Rand, i int) hist {
 	rg := seedRand(uint64(i))
 	h := hist{Index: i, Transport: []string{"pipe", "http"}[i%2], Hook: (i/2)%3 == 0, FaultAt: -1}
 	first := allClasses[(i/2)%len(allClasses)]
-	switch (i / 2 / len(allClasses)) % 6 {
+	round := i / 2 / len(allClasses)
+	switch round % 6 {
 	case 1:
 		h.External = true
 	case 2:
@@ -212,7 +213,8 @@ func genHist(seedRand func(stream ...uint64) *rand.Rand, i int) hist {
 	}
 	if first == "unary:big" || first == "stream:big" {
 		// an oversized result only means something with a cap or external storage
-		switch rg.IntN(3) {
+		h.External, h.ExtZstd, h.MaxResp, h.MaxExt = false, false, 0, 0
+		switch round % 3 {
 		case 0:
 			h.External = true
 		case 1:
